@@ -799,3 +799,11 @@ def option_prim_eq(ctx, args, st):
         r = ctx.ex.binop('Ne' if neg else 'Eq', x, y)
         return ret(st, r)
     return None
+
+
+@model(r'^<&?bool as Not>::not$')
+def bool_not(ctx, args, st):
+    v = args[0]
+    while isinstance(v, Ref): v = st.deref(v)
+    if not isinstance(v, Bool): raise Unsupported(f'Not::not on {v!r}')
+    return ret(st, Bool(z3.simplify(z3.Not(v.e))))
